@@ -261,6 +261,103 @@ class PathEngine:
         e.frames = self._frames
         return e
 
+    def _closure_dict(self, outer: FuncInfo, name: str) -> Any:
+        """a closure variable bound exactly once in the enclosing function to a dict display with constant keys
+        whose values are plain names (`call_kwargs = {"on_metric": on_metric, ...}`): the display itself, with the
+        names as the nested function sees them (free variables)"""
+        binds = []
+        for n in self.prog._own_nodes(outer.node):
+            tg = None
+            if isinstance(n, ast.Assign) and len(n.targets) == 1:
+                tg, val = n.targets[0], n.value
+            elif isinstance(n, ast.AnnAssign) and n.value is not None:
+                tg, val = n.target, n.value
+            elif isinstance(n, (ast.AugAssign, ast.NamedExpr)) and isinstance(n.target, ast.Name) and n.target.id == name:
+                return None
+            if isinstance(tg, ast.Name) and tg.id == name:
+                binds.append(val)
+            if isinstance(n, ast.Subscript) and isinstance(n.ctx, (ast.Store, ast.Del)) and isinstance(n.value, ast.Name) and n.value.id == name:
+                return None
+            if isinstance(n, ast.Call) and isinstance(n.func, ast.Attribute) and isinstance(n.func.value, ast.Name) and n.func.value.id == name and n.func.attr in MUTATORS:
+                return None
+        if len(binds) != 1 or not isinstance(binds[0], ast.Dict):
+            return None
+        items = []
+        for k, v in zip(binds[0].keys, binds[0].values):
+            if not (isinstance(k, ast.Constant) and isinstance(k.value, str)):
+                return None
+            if isinstance(v, ast.Name):
+                items.append((("const", k.value), ("free", v.id)))
+            elif isinstance(v, ast.Constant):
+                items.append((("const", k.value), ("const", v.value)))
+            else:
+                return None
+        return ("dict", tuple(items))
+
+    # ------------------------------------------------------------------ parameter objects
+    def _new_record_class(self, qual: str | None) -> Any:
+        """a record class (NamedTuple / dataclass with declared fields) that did not exist when the rules were
+        written: a parameter object introduced by a refactoring.  Its fields are treated as if they were passed
+        one by one under their own names."""
+        if qual is None:
+            return None
+        known = self.__dict__.get("_known_classes")
+        if known is None:
+            import os
+
+            try:
+                with open(os.path.join(os.path.dirname(os.path.abspath(__file__)), "known_classes.txt")) as fh:
+                    known = {ln.strip() for ln in fh if ln.strip()}
+            except OSError:
+                known = set(self.prog.classes)
+            self.__dict__["_known_classes"] = known
+        if qual in known:
+            return None
+        ci = self.prog.classes.get(qual)
+        if ci is None or not self.prog.all_fields(ci) or ci.methods.get("__init__") is not None:
+            return None
+        return ci
+
+    def _record_of_param(self, base: Any, cfg: CFG) -> Any:
+        if not (isinstance(base, tuple) and len(base) == 2 and base[0] == "param" and isinstance(base[1], str)):
+            return None
+        ty = self.prog.func_locals(cfg.func).get(base[1].lstrip("*"))
+        if not ty:
+            return None
+        cl = [a[1] for a in ty if a[0] == "cls"]
+        if len(cl) != 1:
+            return None
+        return self._new_record_class(cl[0])
+
+    def _record_field(self, base: Any, key: Any, cfg: CFG) -> Any:
+        """value of field `key` (name or index) of `base` when base is a parameter object or its constructor term"""
+        if isinstance(base, tuple) and base[0] == "pure" and isinstance(base[1], str) and base[1].startswith("new "):
+            cname = base[1][4:]
+            cands = [q for q, c in self.prog.classes.items() if c.name == cname]
+            ci = self._new_record_class(cands[0]) if len(cands) == 1 else None
+            if ci is not None:
+                fields = self.prog.all_fields(ci)
+                vals: dict[str, Any] = {}
+                for i, a in enumerate(base[2]):
+                    if i < len(fields):
+                        vals[fields[i]] = a
+                vals.update(dict(base[3]))
+                name = fields[key] if isinstance(key, int) and key < len(fields) else key
+                if isinstance(name, str) and name in vals:
+                    return vals[name]
+                if isinstance(name, str) and name in fields:
+                    d = self.prog.field_default(ci, name)
+                    if isinstance(d, ast.Constant):
+                        return ("const", d.value)
+            return None
+        ci = self._record_of_param(base, cfg)
+        if ci is not None:
+            fields = self.prog.all_fields(ci)
+            name = fields[key] if isinstance(key, int) and key < len(fields) else key
+            if isinstance(name, str) and name in fields:
+                return ("param", name)
+        return None
+
     def _module_const(self, m: Any, name: str, val: ast.expr) -> Any:
         """value of a module-level name bound exactly once to a literal constant / enum member / flat
         collection of those (a constant hoisted out of a function): the term the inline literal would give"""
@@ -332,7 +429,8 @@ class PathEngine:
             f = fi.parent
             while f is not None:
                 if e.id in self.prog.func_locals(f):
-                    return ("free", e.id)
+                    d = self._closure_dict(f, e.id)
+                    return d if d is not None else ("free", e.id)
                 f = f.parent
             k, p = self.prog.lookup_name(e.id, fi, fi.module)
             if k == "func":
@@ -366,11 +464,18 @@ class PathEngine:
                 return ("global", base[1] + "." + e.attr)
             if base[0] == "enum" and e.attr in ("value", "name"):
                 return base if e.attr == "value" else ("attr", base, "name")
+            rf = self._record_field(base, e.attr, cfg)
+            if rf is not None:
+                return rf
             loc = ("attr", base, e.attr)
             return store.get(loc, loc)
         if isinstance(e, ast.Subscript):
             base = self.sym(e.value, env, store, cfg)
             idx = self.sym(e.slice, env, store, cfg)
+            if idx[0] == "const" and isinstance(idx[1], int):
+                rf = self._record_field(base, idx[1], cfg)
+                if rf is not None:
+                    return rf
             loc = ("sub", base, idx)
             return store.get(loc, loc)
         if isinstance(e, ast.Call):
@@ -609,7 +714,20 @@ class PathEngine:
                         drop_temps(env2)
                     else:
                         env2[("$t", id(node.info["cond"]))] = br
-                    go(lab, env=env2, items=items + [("cond", atom, want, node, cfg, self._frames)], lits=lits2)
+                    go(lab, env=env2, items=items + [("cond", atom, want, node, cfg, self._frames, br)], lits=lits2)
+            elif k == "iter" and self._literal_iter(node, env, store, cfg, visits.get(nid, 0)) is not None:
+                # a loop over a tuple display local to the function (a decision table written as data): unrolled exactly
+                elems = self._literal_iter(node, env, store, cfg, visits.get(nid, 0))
+                c = visits.get(nid, 0)
+                v2 = dict(visits)
+                v2[nid] = c + 1
+                if c < len(elems):
+                    env2 = dict(env)
+                    env2, store2, items2 = self._assign(cfg, node, node.info["target"], elems[c], env2, store, items, None)
+                    go("body", env=env2, store=store2, items=items2, visits=v2)
+                else:
+                    v2[nid] = 0
+                    go("done", visits=v2)
             elif k == "iter":
                 c = visits.get(nid, 0)
                 if c == 0:
@@ -663,6 +781,17 @@ class PathEngine:
             self._cache[ck] = out
         return out
 
+    def _literal_iter(self, node: Node, env: dict, store: dict, cfg: CFG, visit: int) -> Any:
+        """elements of the iterated collection when it is a tuple / list display of tuple displays bound to a local
+        of this function (at most 12 rows), else None"""
+        it = node.info["iter"]
+        if not isinstance(it, ast.Name) or it.id not in env:
+            return None
+        t = env[it.id]
+        if not (isinstance(t, tuple) and t[0] == "tuple" and 0 < len(t[1]) <= 12 and all(isinstance(x, tuple) and x[0] == "tuple" for x in t[1])):
+            return None
+        return list(t[1])
+
     def _bind_fresh(self, tgt: ast.expr, nid: int, env: dict) -> None:
         if isinstance(tgt, ast.Name):
             env[tgt.id] = ("fresh", nid, tgt.id)
@@ -682,7 +811,9 @@ class PathEngine:
                 if val[0] == "tuple" and i < len(val[1]):
                     sub = val[1][i]
                 else:
-                    sub = ("sub", val, ("const", i))
+                    sub = self._record_field(val, i, cfg)
+                    if sub is None:
+                        sub = ("sub", val, ("const", i))
                 env, store, items = self._assign(cfg, node, e, sub, env, store, items, None)
             return env, store, items
         if isinstance(tgt, ast.Attribute):
@@ -714,7 +845,13 @@ class PathEngine:
             args.append(self.sym(a, env, store, cfg))
         kwargs = {}
         for kw in call.keywords:
-            kwargs[kw.arg or "**"] = self.sym(kw.value, env, store, cfg)
+            v = self.sym(kw.value, env, store, cfg)
+            if kw.arg is None and isinstance(v, tuple) and v[0] == "dict" and all(k[0] == "const" and isinstance(k[1], str) for k, _ in v[1]):
+                # `**{...}` of a dict display with constant keys (built once, splatted into several calls)
+                for k, x in v[1]:
+                    kwargs[k[1]] = x
+            else:
+                kwargs[kw.arg or "**"] = v
         label = "/".join(t.label() for t in targets)
         pure = False
         fname = None
@@ -736,10 +873,40 @@ class PathEngine:
             pure, fname = True, "new " + (t0.cls.name if t0.cls else "?")
         elif all(t.kind == "ctor" for t in targets) and t0.cls is not None and t0.cls.name in self.kinds.parent:
             pure, fname = True, "new " + t0.cls.name
+        if not pure and all(t.kind in ("lib", "unknown") for t in targets) and (t0.name or "").endswith("dataclasses.replace") and args and isinstance(args[0], tuple) and args[0][0] == "pure" and str(args[0][1]).startswith("new ") and "**" not in kwargs:
+            # dataclasses.replace(<constructor term>, f=v, ...): the constructor term with those fields changed
+            pure, fname = True, "dataclasses.replace"
+        expanded = None
+        if pure and fname in ("any", "all") and len(call.args) == 1 and isinstance(call.args[0], (ast.GeneratorExp, ast.ListComp)):
+            g = call.args[0]
+            if len(g.generators) == 1 and not g.generators[0].ifs and isinstance(g.generators[0].target, ast.Name):
+                try:
+                    coll = self.sym(g.generators[0].iter, env, store, cfg)
+                except AnalysisError:
+                    coll = None
+                if isinstance(coll, tuple) and coll[0] == "tuple" and 0 < len(coll[1]) <= 12 and not has_events_expr(g.elt):
+                    parts = []
+                    for el in coll[1]:
+                        env3 = dict(env)
+                        env3[g.generators[0].target.id] = el
+                        parts.append(self.sym(g.elt, env3, store, cfg))
+                    expanded = parts[0] if len(parts) == 1 else ("bool", "or" if fname == "any" else "and", tuple(parts))
         if pure:
             res = ("pure", fname, tuple(([recv] if fname and fname.startswith(".") else []) + args), tuple(sorted(kwargs.items())))
+            if expanded is not None:
+                res = expanded
             if fname == "typing.cast" and len(args) == 2:
                 res = args[1]
+            if fname == "dataclasses.replace":
+                b = args[0]
+                cands = [c for c in self.prog.classes.values() if c.name == b[1][4:]]
+                order = self.prog.all_fields(cands[0]) if len(cands) == 1 else []
+                merged = dict(b[3])
+                for i, a in enumerate(b[2]):
+                    if i < len(order):
+                        merged[order[i]] = a
+                merged.update(kwargs)
+                res = ("pure", b[1], (), tuple(sorted(merged.items()))) if len(merged) >= len(b[2]) + len(b[3]) else res
         else:
             res = ("call", self._nid(node), label)
         # keyword view: positional arguments of a repository callee are also recorded under the callee's parameter
@@ -757,6 +924,16 @@ class PathEngine:
                 bound = dict(kwargs)
                 for i, a in enumerate(args):
                     bound.setdefault(names[i], a)
+                # a parameter object built for this call: its fields count as arguments under their own names
+                for v in list(bound.values()):
+                    if isinstance(v, tuple) and v and v[0] == "pure" and isinstance(v[1], str) and v[1].startswith("new "):
+                        cands = [q for q, c in self.prog.classes.items() if c.name == v[1][4:]]
+                        rc = self._new_record_class(cands[0]) if len(cands) == 1 else None
+                        if rc is not None:
+                            for fname in self.prog.all_fields(rc):
+                                fv = self._record_field(v, fname, cfg)
+                                if fv is not None:
+                                    bound.setdefault(fname, fv)
         ev = self._ev(cfg, "call", node, targets=targets, recv=recv, args=args, kwargs=bound, result=res, pure=pure, label=label, awaited=bool(node.info.get("awaited")))
         if isinstance(f, ast.Name):
             try:
@@ -876,6 +1053,10 @@ def default_inline() -> Callable[[FuncInfo], bool]:
         return fi.module.name.startswith("redress.") and not fi.module.name.startswith(("redress.testing", "redress.cli", "redress.contrib"))
 
     return pred
+
+
+def has_events_expr(e: ast.AST) -> bool:
+    return any(isinstance(n, (ast.Call, ast.Await, ast.NamedExpr, ast.Yield, ast.YieldFrom)) for n in ast.walk(e))
 
 
 def drop_temps(env: dict) -> None:
